@@ -150,6 +150,16 @@ func c05Run(run *evid.Run, r *rand.Rand, env *Env, ic ipCfg, n int) {
 					}
 					cs = append(cs, c)
 				}
+				if r.Intn(2) == 0 {
+					// The same message under several domains in one request (what a validator client does for
+					// sync-committee duties): fillers carry the restricted entry's data under their own domain.
+					for i := range cs {
+						if i != pos && r.Intn(2) == 0 {
+							cs[i].Data.Data = append([]byte{}, cs[pos].Data.Data...)
+						}
+					}
+					ep = "multi-shared-data"
+				}
 				res, sigs = env.SignGens(via, cs)
 			}
 			for i, c := range cs {
@@ -184,6 +194,13 @@ func c05Run(run *evid.Run, r *rand.Rand, env *Env, ic ipCfg, n int) {
 							if ok, _ := oracle.VerifySig(c.Key.Pub, root[:], sig); ok {
 								run.Violate(fmt.Sprintf("%s endpoint returned a signature valid under domain type %x", ep, pre), cell(ep, "signed"))
 							}
+						}
+					}
+					// Nor as a signature under the restricted domain another entry of the request carried.
+					if !bytes.Equal(d, dom) && len(dom) == 32 && (isAtt || isProp || (isExit && !listed)) {
+						root := oracle.SigningRoot(b32(c.Data.Data), dom)
+						if ok, _ := oracle.VerifySig(c.Key.Pub, root[:], sig); ok {
+							run.Violate(fmt.Sprintf("%s endpoint returned at position %d a signature valid under the restricted domain type %x of another entry", ep, i, dom[:4]), cell(ep, "signed"))
 						}
 					}
 					if x {
